@@ -22,11 +22,21 @@ type vStatCall struct {
 	ntags int
 }
 
-// vStatter records every call made on the client.
-type vStatter struct{ calls []vStatCall }
+// vStatter records every call made on the client; at the explorer's choice the client
+// accepts the value but reports an error (a UDP client does that for a send that failed after
+// the datagram was handed to the kernel): still exactly one call per value.
+type vStatter struct {
+	calls []vStatCall
+	fail  bool
+}
+
+var errClient = fmt.Errorf("client error")
 
 func (s *vStatter) rec(op, name string, v int64, rate float32, tags []cactus.Tag) error {
 	s.calls = append(s.calls, vStatCall{op, name, v, rate, len(tags)})
+	if s.fail {
+		return errClient
+	}
 	return nil
 }
 func (s *vStatter) Inc(n string, v int64, r float32, t ...cactus.Tag) error {
@@ -97,7 +107,7 @@ func c18Rate() (opt float32, want float32) {
 var c18Precisions = []uint{0, 1, 2, 3, 6, 9, 12}
 
 func c18Setup() (*vStatter, tally.StatsReporter, float32, uint, string, map[string]string) {
-	st := &vStatter{}
+	st := &vStatter{fail: verifrt.Choose("client-error", 2) == 1}
 	opt, want := c18Rate()
 	prec := c18Precisions[verifrt.Choose("prec", len(c18Precisions))]
 	r := NewReporter(st, Options{SampleRate: opt, HistogramBucketNamePrecision: prec})
